@@ -322,6 +322,9 @@ func exhaustiveCert(g *gen) {
 		flush := func() {
 			if len(subs) > 0 {
 				batchP("c08-exh", plainRoot(), subs, profs)
+				apiMode = true
+				batchP("c08-exh-api", plainRoot(), subs, profs)
+				apiMode = false
 				subs, profs = nil, nil
 			}
 		}
